@@ -86,7 +86,9 @@ def sweep_shard(cells, b, p):
         for pos, t in enumerate(ts):
             if pos in op.params:
                 pools.append([0, 1, b, b + 1])
-            elif t in "Bb":
+            elif t == "B":
+                pools.append([0, 1, 2])         # 2: a declared boolean holding garbage (only creatable where errors are suppressed)
+            elif t == "b":
                 pools.append([0, 1])
             elif t == "f":
                 pools.append([["f", 3, 2], ["f", -1, 1]])
@@ -110,8 +112,7 @@ def sweep_shard(cells, b, p):
                 # the result of the operation is USED inside the same guarded region (product, comparison):
                 # hints of the consumers are computed from the reported value, so value and wire must agree
                 if mode != "normal" and ok and len(m.vals) > len(prog["stmts"]) - 1 + 0:
-                    ng = len(mode) - 5
-                    ridx = len(args) + ng
+                    ridx = prog["first_result"]
                     if ridx < len(m.vals) and m.types[ridx] in "IBF":
                         prog2 = opgrid.single({"p": p, "b": b, "r": 2, "ignore": False}, name, args, mode)
                         body = prog2["stmts"][-1]
